@@ -14,8 +14,9 @@
 // operator and functors taking `const Item&` (counted as information).
 //
 // The TU is built several times; C20_PART selects what is compiled:
-//   1 = apply over non-const sources   2 = apply over const sources
-//   3 = apply over InputIterator sources (mock source), apply_item loops, real Reader
+//   1 = apply(Buffer&)                       2 = apply over const sources
+//   5 = apply over non-const iterator ranges  3 = apply over InputIterator sources (mock source)
+//   6 = apply_item loops, apply over a real Reader
 //   4 = DiffIterator / apply_diff (buffer, mock source, real Reader)
 //   0 / undefined = everything
 
@@ -37,7 +38,9 @@
 
 #include "vh_hooks.hpp"
 
+#include <algorithm>
 #include <array>
+#include <cstring>
 #include <memory>
 #include <string>
 #include <tuple>
@@ -639,7 +642,7 @@ void check_apply_run(const char* srcname, Filter filter, bool src_const, bool wi
     if (e && a && ev_class(e) == ev_class(a) && e->h == a->h) what = "callback " + ev_class(e) + " received the wrong object (identity/id/version)";
     else if (e && a && ev_class(e) == ev_class(a)) what = "callback " + ev_class(e) + " reached the handlers in the wrong order";
     else what = "expected " + ev_class(e) + " but got " + ev_class(a);
-    std::string key = vh::fmt("apply over %s, %s at list position %d of %d: %s", srcname, p < L.len ? KINDNAME[L.kinds[p]] : "?", p + 1, L.len, what.c_str());
+    std::string key = vh::fmt("apply over %s, %s: %s", srcname, p < L.len ? KINDNAME[L.kinds[p]] : "?", what.c_str());
     std::string d = "items=" + seq_str(items) + " handlers=[" + list_str(L) + "] " + extra + "\n expected:";
     for (const auto& x : exp[best]) d += " " + ev_str(x);
     d += "\n actual  :";
@@ -649,17 +652,25 @@ void check_apply_run(const char* srcname, Filter filter, bool src_const, bool wi
 
 // ------------------------------------------------------------------ running handler lists
 
-template <typename Src, int... Ks, std::size_t... Is>
-void run_list_impl(Src& src, std::index_sequence<Is...>) {
-    std::tuple<Holder<Ks>...> hs(static_cast<int>(Is)...);
-    src.apply(std::get<Is>(hs).arg()...);
-}
-
 template <typename Src> struct ListEntry { ListDesc desc; void (*run)(Src&); };
 
-template <typename Src, int... Ks> struct Runner {
-    static void run(Src& s) { run_list_impl<Src, Ks...>(s, std::make_index_sequence<sizeof...(Ks)>{}); }
-    static ListEntry<Src> entry() { return ListEntry<Src>{ListDesc{static_cast<int>(sizeof...(Ks)), {Ks...}}, &run}; }
+// (plain local holders instead of a std::tuple: much cheaper to compile)
+template <typename Src, int... Ks> struct Runner;
+template <typename Src, int A> struct Runner<Src, A> {
+    static void run(Src& s) { Holder<A> a(0); s.apply(a.arg()); }
+    static ListEntry<Src> entry() { return ListEntry<Src>{ListDesc{1, {A, 0, 0, 0}}, &run}; }
+};
+template <typename Src, int A, int B> struct Runner<Src, A, B> {
+    static void run(Src& s) { Holder<A> a(0); Holder<B> b(1); s.apply(a.arg(), b.arg()); }
+    static ListEntry<Src> entry() { return ListEntry<Src>{ListDesc{2, {A, B, 0, 0}}, &run}; }
+};
+template <typename Src, int A, int B, int C> struct Runner<Src, A, B, C> {
+    static void run(Src& s) { Holder<A> a(0); Holder<B> b(1); Holder<C> c(2); s.apply(a.arg(), b.arg(), c.arg()); }
+    static ListEntry<Src> entry() { return ListEntry<Src>{ListDesc{3, {A, B, C, 0}}, &run}; }
+};
+template <typename Src, int A, int B, int C, int D> struct Runner<Src, A, B, C, D> {
+    static void run(Src& s) { Holder<A> a(0); Holder<B> b(1); Holder<C> c(2); Holder<D> d(3); s.apply(a.arg(), b.arg(), c.arg(), d.arg()); }
+    static ListEntry<Src> entry() { return ListEntry<Src>{ListDesc{4, {A, B, C, D}}, &run}; }
 };
 
 constexpr std::size_t ipow(std::size_t b, std::size_t e) { return e == 0 ? 1 : b * ipow(b, e - 1); }
@@ -681,53 +692,72 @@ constexpr int ALL_NC[] = {K_S, K_SN, K_SC, K_ST, K_P, K_D0, K_DS, K_DF, K_LcN, K
                           K_LcC, K_LnC, K_LcO, K_LnO, K_LcE, K_LnE, K_LG, K_LL, K_F2, K_LM, K_LI, K_CH2, K_CH3, K_CHN};
 constexpr int ALL_C[] = {K_S, K_SC, K_ST, K_P, K_D0, K_DS, K_DF, K_LcN, K_LnN, K_LcW, K_LnW, K_LcR, K_LnR, K_LcA, K_LnA,
                          K_LcC, K_LnC, K_LcO, K_LnO, K_LcE, K_LnE, K_LG, K_LL, K_F2, K_LM, K_LI};
-constexpr int PAIR_NC[] = {K_S, K_SN, K_ST, K_P, K_DS, K_DF, K_LcN, K_LnN, K_LcO, K_LG, K_CH2};
-constexpr int PAIR_C[] = {K_S, K_SC, K_ST, K_P, K_DS, K_DF, K_LcN, K_LnN, K_LcO, K_LG};
 constexpr int CORE_NC[] = {K_S, K_DS, K_LcO, K_LnW, K_CH2};
 constexpr int CORE_C[] = {K_S, K_DS, K_LcO, K_LnW};
 constexpr int HANDLERS_NC[] = {K_S, K_SN, K_SC, K_P, K_D0, K_DS, K_DF, K_CH2, K_CH3, K_CHN};
 constexpr int HANDLERS_C[] = {K_S, K_SC, K_P, K_D0, K_DS, K_DF};
 template <typename T, std::size_t N> constexpr std::size_t alen(const T (&)[N]) { return N; }
 
-enum Level { LV_FULL, LV_MID, LV_HANDLERS };
+// rotations: for k = 0..N-1 the list (SET[(k+o0)%N], SET[(k+o1)%N], ...): every kind at every position once
+template <typename Src, const int* SET, std::size_t N, std::size_t K, std::size_t... Offs>
+ListEntry<Src> rot_entry() { return Runner<Src, SET[(K + Offs) % N]...>::entry(); }
+template <typename Src, const int* SET, std::size_t N, std::size_t... Ks>
+void add_rot3_impl(std::vector<ListEntry<Src>>& v, std::index_sequence<Ks...>) { (v.push_back(rot_entry<Src, SET, N, Ks, 0, 1, 3>()), ...); }
+template <typename Src, const int* SET, std::size_t N, std::size_t... Ks>
+void add_rot4_impl(std::vector<ListEntry<Src>>& v, std::index_sequence<Ks...>) { (v.push_back(rot_entry<Src, SET, N, Ks, 0, 2, 1, 4>()), ...); }
+template <typename Src, const int* SET, std::size_t N>
+void add_rot(std::vector<ListEntry<Src>>& v) {
+    add_rot3_impl<Src, SET, N>(v, std::make_index_sequence<N>{});
+    add_rot4_impl<Src, SET, N>(v, std::make_index_sequence<N>{});
+}
+
+// LV_MAIN: every kind alone, all lists of length 2 and 3 over the core kinds, every 3rd/4th list of length 4
+// LV_MID : every kind alone, all pairs over the core kinds, rotations of length 3 and 4
+// LV_HANDLERS (apply_item loops, which need real handlers): handler kinds alone, some pairs, rotations
+// LV_READER (a real Reader per run is expensive): a few kinds alone + rotations over the core kinds
+enum Level { LV_MAIN, LV_MID, LV_HANDLERS, LV_READER };
+constexpr int READER_NC[] = {K_S, K_SN, K_DS, K_LcO, K_LnW, K_LcC, K_LG, K_CH2};
+constexpr int READER_C[] = {K_S, K_DS, K_LcO, K_LnW, K_LcC, K_LG};
 
 template <typename Src>
 const std::vector<ListEntry<Src>>& lists_for() {
     static const std::vector<ListEntry<Src>> lists = [] {
         std::vector<ListEntry<Src>> v;
-        if constexpr (Src::level == LV_HANDLERS) {
+        if constexpr (Src::level == LV_READER) {
+            if constexpr (Src::is_const) {
+                add_lists<Src, READER_C, alen(READER_C), 1>(v);
+                add_rot<Src, CORE_C, alen(CORE_C)>(v);
+            } else {
+                add_lists<Src, READER_NC, alen(READER_NC), 1>(v);
+                add_rot<Src, CORE_NC, alen(CORE_NC)>(v);
+            }
+        } else if constexpr (Src::level == LV_HANDLERS) {
             if constexpr (Src::is_const) {
                 add_lists<Src, HANDLERS_C, alen(HANDLERS_C), 1>(v);
                 add_lists<Src, HANDLERS_C, alen(HANDLERS_C), 2, 5>(v);
-                add_lists<Src, HANDLERS_C, alen(HANDLERS_C), 3, 41>(v);
-                add_lists<Src, HANDLERS_C, alen(HANDLERS_C), 4, 233>(v);
+                add_rot<Src, HANDLERS_C, alen(HANDLERS_C)>(v);
             } else {
                 add_lists<Src, HANDLERS_NC, alen(HANDLERS_NC), 1>(v);
                 add_lists<Src, HANDLERS_NC, alen(HANDLERS_NC), 2, 7>(v);
-                add_lists<Src, HANDLERS_NC, alen(HANDLERS_NC), 3, 97>(v);
-                add_lists<Src, HANDLERS_NC, alen(HANDLERS_NC), 4, 1033>(v);
+                add_rot<Src, HANDLERS_NC, alen(HANDLERS_NC)>(v);
             }
         } else if constexpr (Src::is_const) {
             add_lists<Src, ALL_C, alen(ALL_C), 1>(v);
-            if constexpr (Src::level == LV_FULL) {
-                add_lists<Src, PAIR_C, alen(PAIR_C), 2>(v);
+            add_lists<Src, CORE_C, alen(CORE_C), 2>(v);
+            if constexpr (Src::level == LV_MAIN) {
                 add_lists<Src, CORE_C, alen(CORE_C), 3>(v);
-                add_lists<Src, CORE_C, alen(CORE_C), 4>(v);
+                add_lists<Src, CORE_C, alen(CORE_C), 4, 3>(v);
             } else {
-                add_lists<Src, CORE_C, alen(CORE_C), 2>(v);
-                add_lists<Src, CORE_C, alen(CORE_C), 3, 5>(v);
-                add_lists<Src, CORE_C, alen(CORE_C), 4, 11>(v);
+                add_rot<Src, CORE_C, alen(CORE_C)>(v);
             }
         } else {
             add_lists<Src, ALL_NC, alen(ALL_NC), 1>(v);
-            if constexpr (Src::level == LV_FULL) {
-                add_lists<Src, PAIR_NC, alen(PAIR_NC), 2>(v);
+            add_lists<Src, CORE_NC, alen(CORE_NC), 2>(v);
+            if constexpr (Src::level == LV_MAIN) {
                 add_lists<Src, CORE_NC, alen(CORE_NC), 3>(v);
-                add_lists<Src, CORE_NC, alen(CORE_NC), 4>(v);
+                add_lists<Src, CORE_NC, alen(CORE_NC), 4, 4>(v);
             } else {
-                add_lists<Src, CORE_NC, alen(CORE_NC), 2>(v);
-                add_lists<Src, CORE_NC, alen(CORE_NC), 3, 7>(v);
-                add_lists<Src, CORE_NC, alen(CORE_NC), 4, 13>(v);
+                add_rot<Src, CORE_NC, alen(CORE_NC)>(v);
             }
         }
         return v;
@@ -774,6 +804,16 @@ uint64_t sequences_upto(int nsym, int maxlen) {
     return total;
 }
 
+// Cases are sharded in contiguous index ranges but the cost of a case grows/shrinks with the enumeration
+// index; a multiplicative permutation spreads cheap and expensive cases evenly over the shards.
+uint64_t permute_case(uint64_t i, uint64_t total) {
+    if (total < 3) return i;
+    uint64_t p = 1000003 % total;
+    auto gcd = [](uint64_t a, uint64_t b) { while (b) { const uint64_t t = a % b; a = b; b = t; } return a; };
+    while (p < 2 || gcd(p, total) != 1) ++p;
+    return static_cast<uint64_t>((static_cast<unsigned __int128>(i) * p) % total);
+}
+
 // ------------------------------------------------------------------ sources (apply)
 
 // A source that hands out views of chunks of a sequence buffer, as a Reader hands out buffers.
@@ -816,13 +856,13 @@ void fill_mock(MockSource& m, Sequence& s, unsigned mask) {
     static constexpr Level level = LEVEL; static constexpr bool mock = MOCK; static constexpr bool with_flush = true; \
     Sequence* seq; MockSource* ms;
 
-struct SrcCBuf { C20_SRC_COMMON("const Buffer", true, F_ENTITY, LV_FULL, false)
+struct SrcCBuf { C20_SRC_COMMON("const Buffer", true, F_ENTITY, LV_MAIN, false)
     template <typename... H> void apply(H&&... h) { const Buffer& b = seq->buffer; osmium::apply(b, std::forward<H>(h)...); } };
-struct SrcBuf { C20_SRC_COMMON("Buffer", false, F_ENTITY, LV_FULL, false)
+struct SrcBuf { C20_SRC_COMMON("Buffer", false, F_ENTITY, LV_MAIN, false)
     template <typename... H> void apply(H&&... h) { osmium::apply(seq->buffer, std::forward<H>(h)...); } };
-struct SrcItItem { C20_SRC_COMMON("iterator range begin<Item>()", false, F_ALL, LV_FULL, false)
+struct SrcItItem { C20_SRC_COMMON("iterator range begin<Item>()", false, F_ALL, LV_MID, false)
     template <typename... H> void apply(H&&... h) { osmium::apply(seq->buffer.begin<Item>(), seq->buffer.end<Item>(), std::forward<H>(h)...); } };
-struct SrcCItItem { C20_SRC_COMMON("iterator range cbegin<Item>()", true, F_ALL, LV_FULL, false)
+struct SrcCItItem { C20_SRC_COMMON("iterator range cbegin<Item>()", true, F_ALL, LV_MID, false)
     template <typename... H> void apply(H&&... h) { osmium::apply(seq->buffer.cbegin<Item>(), seq->buffer.cend<Item>(), std::forward<H>(h)...); } };
 struct SrcItObj { C20_SRC_COMMON("iterator range begin<OSMObject>()", false, F_OBJECT, LV_MID, false)
     template <typename... H> void apply(H&&... h) { osmium::apply(seq->buffer.begin<osmium::OSMObject>(), seq->buffer.end<osmium::OSMObject>(), std::forward<H>(h)...); } };
@@ -864,6 +904,13 @@ void run_source(Sequence& seq, const Effort& ef, uint64_t case_index) {
     static MockSource ms;
     Src src{&seq, &ms};
     const auto& lists = lists_for<Src>();
+    static bool covered = false;
+    if (!covered) {
+        covered = true;
+        vh::cover("apply_source", Src::name);
+        vh::count_max(std::string("max_lists[") + Src::name + "]", lists.size());
+        for (const auto& l : lists) for (int i = 0; i < l.desc.len; ++i) vh::cover("handler_kind", KINDNAME[l.desc.kinds[i]]);
+    }
     const std::size_t n = seq.items.size();
     uint64_t runs = 0;
     for (std::size_t li = 0; li < lists.size(); ++li) {
@@ -901,8 +948,9 @@ void run_source(Sequence& seq, const Effort& ef, uint64_t case_index) {
 const int FULL_ALPHABET[NSYM] = {SY_N, SY_W, SY_R, SY_A, SY_C, SY_RN, SY_RC, SY_T, SY_L, SY_M, SY_O, SY_I, SY_D};
 
 // mode=apply: case index = index of the item sequence (all sequences of length 0..maxlen)
-void case_apply(uint64_t index, vh::Rng&) {
+void case_apply(uint64_t case_no, vh::Rng&) {
     static Sequence seq;
+    const uint64_t index = permute_case(case_no, sequences_upto(NSYM, static_cast<int>(vh::arg_int("maxlen", 5))));
     const std::vector<int> syms = decode_sequence(index, NSYM, FULL_ALPHABET);
     build_sequence(seq, syms);
     use_addresses(seq.items);
@@ -922,6 +970,8 @@ void case_apply(uint64_t index, vh::Rng&) {
     if (removed) vh::count("sequences_with_removed_items");
 #if PART(1)
     run_source<SrcBuf>(seq, ef, index);
+#endif
+#if PART(5)
     run_source<SrcItItem>(seq, ef, index);
     run_source<SrcItObj>(seq, ef, index);
     run_source<SrcSelItem>(seq, ef, index);
@@ -937,6 +987,8 @@ void case_apply(uint64_t index, vh::Rng&) {
     run_source<SrcMockCItem>(seq, ef, index);
     run_source<SrcMockObj>(seq, ef, index);
     run_source<SrcMockCEnt>(seq, ef, index);
+#endif
+#if PART(6)
     run_source<SrcLoopItem>(seq, ef, index);
     run_source<SrcLoopCItem>(seq, ef, index);
     run_source<SrcLoopEnt>(seq, ef, index);
@@ -955,6 +1007,485 @@ void at_end_apply() {
     vh::count("info_mutable_lambda_calls", g_unjudged_seen_mutable);
 }
 
+// ------------------------------------------------------------------ apply over a real Reader (OPL text in memory)
+
+std::string g_opl;
+osmium::io::buffers_type g_buffers_kind = osmium::io::buffers_type::any;
+
+struct SrcReader { C20_SRC_COMMON("Reader", false, F_ALL, LV_READER, false)
+    template <typename... H> void apply(H&&... h) {
+        osmium::io::Reader reader{osmium::io::File{g_opl.data(), g_opl.size(), "opl"}, g_buffers_kind};
+        osmium::apply(reader, std::forward<H>(h)...);
+        reader.close();
+    } };
+struct SrcReaderObj { C20_SRC_COMMON("InputIterator<Reader, OSMObject> range", false, F_OBJECT, LV_READER, false)
+    template <typename... H> void apply(H&&... h) {
+        osmium::io::Reader reader{osmium::io::File{g_opl.data(), g_opl.size(), "opl"}, g_buffers_kind};
+        using It = osmium::io::InputIterator<osmium::io::Reader, osmium::OSMObject>;
+        osmium::apply(It{reader}, It{}, std::forward<H>(h)...);
+        reader.close();
+    } };
+struct SrcReaderCEnt { C20_SRC_COMMON("InputIteratorRange<Reader, const OSMEntity>", true, F_ENTITY, LV_READER, false)
+    template <typename... H> void apply(H&&... h) {
+        osmium::io::Reader reader{osmium::io::File{g_opl.data(), g_opl.size(), "opl"}, g_buffers_kind};
+        auto r = osmium::io::make_input_iterator_range<const osmium::OSMEntity>(reader);
+        osmium::apply(r, std::forward<H>(h)...);
+        reader.close();
+    } };
+
+const int READER_ALPHABET[4] = {SY_N, SY_W, SY_R, SY_C};
+
+// mode=reader: case index = 2 * sequence index + buffers_type
+void case_reader(uint64_t case_no, vh::Rng&) {
+#if PART(6)
+    static Sequence seq;   // only seq.items is used
+    const uint64_t index = permute_case(case_no, 2 * sequences_upto(4, static_cast<int>(vh::arg_int("maxlen", 5))));
+    const std::vector<int> syms = decode_sequence(index / 2, 4, READER_ALPHABET);
+    g_buffers_kind = (index & 1U) ? osmium::io::buffers_type::single : osmium::io::buffers_type::any;
+    seq.items.clear();
+    g_opl.clear();
+    for (std::size_t i = 0; i < syms.size(); ++i) {
+        ItemInfo it;
+        it.sym = syms[i];
+        it.type = sym_type(syms[i]);
+        it.id = static_cast<int64_t>(i) + 1;
+        it.version = static_cast<uint32_t>(7 * (i + 1) + syms[i]);
+        seq.items.push_back(it);
+        switch (syms[i]) {
+            case SY_N: g_opl += vh::fmt("n%lld v%u dV c5 t2020-01-01T00:00:00Z i1 uu Tk=v x1.5 y2.5\n", (long long)it.id, it.version); break;
+            case SY_W: g_opl += vh::fmt("w%lld v%u dV c5 t2020-01-01T00:00:00Z i1 uu Tk=v Nn1,n2,n3\n", (long long)it.id, it.version); break;
+            case SY_R: g_opl += vh::fmt("r%lld v%u dV c5 t2020-01-01T00:00:00Z i1 uu Tk=v Mn1@role,w2@\n", (long long)it.id, it.version); break;
+            default: g_opl += vh::fmt("c%lld k%u s2020-01-01T00:00:00Z e2020-01-01T01:00:00Z d1 i1 uu Tk=v\n", (long long)it.id, it.version); break;
+        }
+    }
+    g_by_id = true;
+    g_naddr = 0;
+    vh::set_case_desc("apply over Reader sequence=%s buffers_type=%s", seq_str(seq.items).c_str(), (index & 1U) ? "single" : "any");
+    Effort ef{1, 0, true};
+    const unsigned div = static_cast<unsigned>(vh::arg_int("rdiv", 1));
+    if (div > 1 && syms.size() > 3) ef = Effort{div, vh::mix(vh::st().seed, index) % div, false};
+    run_source<SrcReader>(seq, ef, index);
+    run_source<SrcReaderObj>(seq, ef, index);
+    run_source<SrcReaderCEnt>(seq, ef, index);
+    vh::count("reader_sequences");
+    if (index % 397 == 11) vh::sample_str("apply over Reader: OPL input " + g_opl);
+#else
+    (void)case_no;
+#endif
+}
+
+// ------------------------------------------------------------------ diff iteration
+
+#if PART(4)
+
+struct DObj { int type; int64_t id; uint32_t version; const unsigned char* addr; };
+const item_type DTYPE[3] = {item_type::node, item_type::way, item_type::relation};
+const char DCH[] = "nwr";
+
+struct DiffEv {
+    uint8_t h = 0, cb = 0;
+    int16_t curr = -1, prev = -1, next = -1;
+    bool first = false, last = false;
+    bool operator==(const DiffEv& o) const { return h == o.h && cb == o.cb && curr == o.curr && prev == o.prev && next == o.next && first == o.first && last == o.last; }
+};
+std::vector<DiffEv> g_dlog;
+std::vector<DObj> g_dobjs;          // the current history
+bool g_d_by_key = false;            // resolve objects by (type,id,version) instead of by address
+uint64_t g_touch = 0;
+
+int resolve_obj(const osmium::OSMObject& o) {
+    if (g_d_by_key) {
+        for (std::size_t i = 0; i < g_dobjs.size(); ++i)
+            if (DTYPE[g_dobjs[i].type] == o.type() && g_dobjs[i].id == o.id() && g_dobjs[i].version == o.version()) return static_cast<int>(i);
+        return -1;
+    }
+    const auto* p = reinterpret_cast<const unsigned char*>(&o);
+    for (std::size_t i = 0; i < g_dobjs.size(); ++i) if (g_dobjs[i].addr == p) {
+        // the reference must really show that object
+        if (DTYPE[g_dobjs[i].type] != o.type() || g_dobjs[i].id != o.id() || g_dobjs[i].version != o.version()) return -2;
+        return static_cast<int>(i);
+    }
+    return -1;
+}
+void touch(const osmium::OSMObject& o) {   // read the whole object so that a stale pointer is seen by ASan
+    for (const auto& tag : o.tags()) g_touch += std::strlen(tag.key()) + std::strlen(tag.value());
+    g_touch += std::strlen(o.user());
+}
+void rec_diff(int h, Cb cb, const osmium::DiffObject& d) {
+    DiffEv e;
+    e.h = static_cast<uint8_t>(h);
+    e.cb = cb;
+    e.first = d.first();
+    e.last = d.last();
+    e.curr = static_cast<int16_t>(resolve_obj(d.curr()));
+    e.prev = static_cast<int16_t>(resolve_obj(d.prev()));
+    e.next = static_cast<int16_t>(resolve_obj(d.next()));
+    touch(d.prev()); touch(d.curr()); touch(d.next());
+    g_dlog.push_back(e);
+}
+Cb dcb(item_type t) { return t == item_type::node ? CB_NODE : t == item_type::way ? CB_WAY : CB_REL; }
+
+struct DHFull : osmium::diff_handler::DiffHandler {
+    int h; explicit DHFull(int h_) : h(h_) {}
+    void node(const osmium::DiffNode& d) { g_touch += d.curr().location().valid(); rec_diff(h, CB_NODE, d); }
+    void way(const osmium::DiffWay& d) { g_touch += d.curr().nodes().size() + d.prev().nodes().size() + d.next().nodes().size(); rec_diff(h, CB_WAY, d); }
+    void relation(const osmium::DiffRelation& d) { g_touch += d.curr().members().size(); rec_diff(h, CB_REL, d); }
+};
+struct DHPart : osmium::diff_handler::DiffHandler {   // only ways
+    int h; explicit DHPart(int h_) : h(h_) {}
+    void way(const osmium::DiffWay& d) { rec_diff(h, CB_WAY, d); }
+};
+struct DHPlain {   // not derived from DiffHandler, const member functions
+    int h; explicit DHPlain(int h_) : h(h_) {}
+    void node(const osmium::DiffNode& d) const { rec_diff(h, CB_NODE, d); }
+    void way(const osmium::DiffWay& d) const { rec_diff(h, CB_WAY, d); }
+    void relation(const osmium::DiffRelation& d) const { rec_diff(h, CB_REL, d); }
+};
+enum DK { DK_FULL, DK_PART, DK_PLAIN };
+const char* const DKNAME[] = {"DiffHandler(node,way,relation)", "DiffHandler(way only)", "plain class(node,way,relation)"};
+struct DList { int len; int kinds[4]; };
+const DList DLISTS[] = {{1, {DK_FULL}}, {1, {DK_PART}}, {1, {DK_PLAIN}}, {2, {DK_FULL, DK_PART}}, {2, {DK_PLAIN, DK_FULL}},
+                        {3, {DK_FULL, DK_PLAIN, DK_PART}}, {4, {DK_PART, DK_FULL, DK_PLAIN, DK_FULL}}};
+constexpr int NDLISTS = 7;
+
+template <typename It>
+void run_apply_diff(int li, It b, It e) {
+    DHFull f0(0), f1(1), f3(3); DHPart p0(0), p1(1), p2(2); DHPlain q0(0), q1(1), q2(2);
+    switch (li) {
+        case 0: osmium::apply_diff(b, e, f0); break;
+        case 1: osmium::apply_diff(b, e, p0); break;
+        case 2: osmium::apply_diff(b, e, q0); break;
+        case 3: osmium::apply_diff(b, e, f0, p1); break;
+        case 4: osmium::apply_diff(b, e, q0, f1); break;
+        case 5: osmium::apply_diff(b, e, f0, q1, p2); break;
+        default: osmium::apply_diff(b, e, p0, f1, q2, f3); break;
+    }
+}
+template <typename Source>
+void run_apply_diff_source(int li, Source& src) {
+    DHFull f0(0), f1(1), f3(3); DHPart p0(0), p1(1), p2(2); DHPlain q0(0), q1(1), q2(2);
+    switch (li) {
+        case 0: osmium::apply_diff(src, f0); break;
+        case 1: osmium::apply_diff(src, p0); break;
+        case 2: osmium::apply_diff(src, q0); break;
+        case 3: osmium::apply_diff(src, f0, p1); break;
+        case 4: osmium::apply_diff(src, q0, f1); break;
+        case 5: osmium::apply_diff(src, f0, q1, p2); break;
+        default: osmium::apply_diff(src, p0, f1, q2, f3); break;
+    }
+}
+// manual iteration; style 0: *it with pre-increment, 1: it-> with pre-increment, 2: post-increment, deref the old copy
+template <typename It>
+void run_manual(int style, It b, It e) {
+    auto it = osmium::make_diff_iterator(b, e);
+    const auto end = osmium::make_diff_iterator(e, e);
+    while (it != end) {
+        if (style == 0) { const osmium::DiffObject& d = *it; rec_diff(0, dcb(d.type()), d); ++it; }
+        else if (style == 1) { rec_diff(0, dcb(it->type()), *it.operator->()); ++it; }
+        else { auto old = it++; const osmium::DiffObject& d = *old; rec_diff(0, dcb(d.type()), d); }
+    }
+}
+
+bool same_object(const DObj& a, const DObj& b) { return a.type == b.type && a.id == b.id; }
+
+// type_filter: -1 all objects, else only objects of that type are yielded by the underlying iterator
+void diff_model(const DList& L, int type_filter, std::vector<DiffEv>& out) {
+    out.clear();
+    std::vector<int> idx;
+    for (std::size_t i = 0; i < g_dobjs.size(); ++i) if (type_filter < 0 || g_dobjs[i].type == type_filter) idx.push_back(static_cast<int>(i));
+    for (std::size_t k = 0; k < idx.size(); ++k) {
+        const int i = idx[k];
+        const int pv = (k > 0 && same_object(g_dobjs[idx[k - 1]], g_dobjs[i])) ? idx[k - 1] : i;
+        const int nx = (k + 1 < idx.size() && same_object(g_dobjs[idx[k + 1]], g_dobjs[i])) ? idx[k + 1] : i;
+        for (int p = 0; p < L.len; ++p) {
+            if (L.kinds[p] == DK_PART && g_dobjs[i].type != 1) continue;
+            DiffEv e;
+            e.h = static_cast<uint8_t>(p);
+            e.cb = dcb(DTYPE[g_dobjs[i].type]);
+            e.curr = static_cast<int16_t>(i); e.prev = static_cast<int16_t>(pv); e.next = static_cast<int16_t>(nx);
+            e.first = pv == i; e.last = nx == i;
+            out.push_back(e);
+        }
+    }
+}
+std::string dobj_str(int i) {
+    if (i < 0 || i >= static_cast<int>(g_dobjs.size())) return i == -2 ? "(right address, wrong content)" : "(unknown object)";
+    return vh::fmt("%c%lldv%u", DCH[g_dobjs[i].type], (long long)g_dobjs[i].id, g_dobjs[i].version);
+}
+std::string dev_str(const DiffEv& e) {
+    return vh::fmt("h%u.%s[%s<%s>%s%s%s]", e.h, CBNAME[e.cb], dobj_str(e.prev).c_str(), dobj_str(e.curr).c_str(), dobj_str(e.next).c_str(), e.first ? " first" : "", e.last ? " last" : "");
+}
+std::string history_str() {
+    std::string s;
+    for (std::size_t i = 0; i < g_dobjs.size(); ++i) { if (i) s += ' '; s += dobj_str(static_cast<int>(i)); }
+    return s.empty() ? "(empty)" : s;
+}
+
+void check_diff_run(const char* what, const DList& L, int type_filter, const std::string& extra) {
+    static std::vector<DiffEv> exp;
+    diff_model(L, type_filter, exp);
+    vh::count("diff_runs");
+    vh::count("diff_visits_checked", g_dlog.size());
+    vh::count("distinct_by_construction");
+    vh::evaluated();
+    if (g_dlog == exp) return;
+    std::size_t i = 0;
+    while (i < g_dlog.size() && i < exp.size() && g_dlog[i] == exp[i]) ++i;
+    std::string problem;
+    if (i >= exp.size()) problem = "more visits than object versions";
+    else if (i >= g_dlog.size()) problem = "object version never presented";
+    else {
+        const DiffEv& a = g_dlog[i]; const DiffEv& e = exp[i];
+        const char* where = e.first && e.last ? "single-version object" : e.first ? "first version of an object" : e.last ? "last version of an object" : "inner version of an object";
+        if (a.curr != e.curr || a.h != e.h || a.cb != e.cb) problem = a.curr == e.curr && a.h == e.h ? "wrong callback for the object type" : "wrong current object or handler order";
+        else if (a.prev != e.prev) problem = std::string("wrong prev() at the ") + where;
+        else if (a.next != e.next) problem = std::string("wrong next() at the ") + where;
+        else if (a.first != e.first) problem = std::string("first() wrong at the ") + where;
+        else problem = std::string("last() wrong at the ") + where;
+    }
+    std::string d = "history=" + history_str() + " handlers=[";
+    for (int p = 0; p < L.len; ++p) { if (p) d += ", "; d += DKNAME[L.kinds[p]]; }
+    d += "] " + extra + "\n expected:";
+    for (const auto& x : exp) d += " " + dev_str(x);
+    d += "\n actual  :";
+    for (const auto& x : g_dlog) d += " " + dev_str(x);
+    vh::violation(vh::fmt("diff over %s: %s", what, problem.c_str()), d);
+}
+
+// ---- enumeration of sorted version histories
+
+struct Skel { std::vector<std::pair<int, int64_t>> objs; };   // (type, id), strictly ascending
+std::vector<Skel> g_skels;
+std::vector<uint64_t> g_skel_first;   // first case index of each skeleton
+uint64_t g_diff_total = 0;
+
+void gen_skels(Skel& cur, int kmax) {
+    if (!cur.objs.empty()) g_skels.push_back(cur);
+    if (static_cast<int>(cur.objs.size()) == kmax) return;
+    if (cur.objs.empty()) {
+        for (int t = 0; t < 3; ++t) { cur.objs.push_back({t, 5}); gen_skels(cur, kmax); cur.objs.pop_back(); }
+        return;
+    }
+    const auto last = cur.objs.back();
+    const std::pair<int, int64_t> steps[4] = {{last.first, last.second + 1}, {last.first + 1, last.second}, {last.first + 1, last.second + 2}, {last.first + 2, last.second}};
+    for (const auto& st : steps) {
+        if (st.first > 2) continue;
+        cur.objs.push_back(st); gen_skels(cur, kmax); cur.objs.pop_back();
+    }
+}
+void init_skels(int kmax) {
+    Skel cur;
+    g_skels.clear();
+    g_skels.push_back(Skel{});   // the empty history
+    gen_skels(cur, kmax);
+    std::stable_sort(g_skels.begin(), g_skels.end(), [](const Skel& a, const Skel& b) { return a.objs.size() < b.objs.size(); });
+    g_skel_first.clear();
+    g_diff_total = 0;
+    for (const auto& s : g_skels) { g_skel_first.push_back(g_diff_total); g_diff_total += 2 * ipow(4, s.objs.size()); }
+}
+const uint32_t GAPPY[4] = {3, 4, 7, 9};
+
+// decode case -> history; returns number of objects (k)
+int decode_history(uint64_t index, std::vector<DObj>& out, std::string& desc) {
+    std::size_t si = std::upper_bound(g_skel_first.begin(), g_skel_first.end(), index) - g_skel_first.begin() - 1;
+    const Skel& sk = g_skels[si];
+    uint64_t code = index - g_skel_first[si];
+    const int scheme = static_cast<int>(code & 1U);
+    code >>= 1;
+    out.clear();
+    desc.clear();
+    for (const auto& o : sk.objs) {
+        const int runlen = static_cast<int>(code % 4) + 1;
+        code /= 4;
+        for (int v = 0; v < runlen; ++v) out.push_back(DObj{o.first, o.second, scheme == 0 ? static_cast<uint32_t>(v + 1) : GAPPY[v], nullptr});
+        desc += vh::fmt("%c%lldx%d ", DCH[o.first], (long long)o.second, runlen);
+    }
+    desc += scheme == 0 ? "versions 1.." : "versions 3,4,7,9";
+    return static_cast<int>(sk.objs.size());
+}
+
+void build_dobj(Buffer& b, DObj& o, int idx) {
+    using namespace osmium::builder;
+    const std::size_t off = b.committed();
+    if (o.type == 0) {
+        NodeBuilder nb{b};
+        nb.set_id(o.id).set_version(o.version).set_location(osmium::Location{1.0, 2.0});
+        nb.set_user("u");
+        add_tags(nb, idx);
+    } else if (o.type == 1) {
+        WayBuilder wb{b};
+        wb.set_id(o.id).set_version(o.version);
+        wb.set_user("u");
+        { WayNodeListBuilder nl{wb}; for (int i = 0; i <= idx % 3; ++i) nl.add_node_ref(100 + i); }
+        add_tags(wb, idx);
+    } else {
+        RelationBuilder rb{b};
+        rb.set_id(o.id).set_version(o.version);
+        rb.set_user("u");
+        { RelationMemberListBuilder ml{rb}; ml.add_member(item_type::node, 5, "role"); }
+        add_tags(rb, idx);
+    }
+    b.commit();
+    o.addr = b.data() + off;
+}
+
+// split patterns for the mock source: boundary after object i iff pattern says so
+bool split_after(int pattern, std::size_t i, uint64_t rnd) {
+    switch (pattern) {
+        case 0: return false;                    // one buffer
+        case 1: return true;                     // one object per buffer
+        case 2: return i % 2 == 0;
+        case 3: return i % 2 == 1;
+        case 4: return i % 3 == 0;
+        case 5: return i % 3 == 1;
+        case 6: return i % 3 == 2;
+        default: return (rnd >> (i % 60)) & 1U;  // seeded random
+    }
+}
+constexpr int NPATTERNS = 9;
+
+// mode=diff: buffer- and mock-source-based diff iteration over one enumerated history
+void case_diff(uint64_t case_no, vh::Rng& rng) {
+    const uint64_t index = permute_case(case_no, g_diff_total);
+    static Buffer buffer{256 * 1024, Buffer::auto_grow::no};
+    static Buffer csbuf{4096, Buffer::auto_grow::no};
+    static MockSource ms;
+    std::string desc;
+    const int k = decode_history(index, g_dobjs, desc);
+    vh::set_case_desc("diff history: %s", desc.c_str());
+    const unsigned div = static_cast<unsigned>(vh::arg_int("ddiv", 1));
+    if (k >= 5 && div > 1 && vh::mix(vh::st().seed, index) % div != 0) { vh::count("diff_histories_skipped_by_sampling"); return; }
+    buffer.clear();
+    std::vector<std::size_t> offs;
+    for (std::size_t i = 0; i < g_dobjs.size(); ++i) { offs.push_back(buffer.committed()); build_dobj(buffer, g_dobjs[i], static_cast<int>(i)); }
+    offs.push_back(buffer.committed());
+    if (csbuf.committed() == 0) build_item(csbuf, SY_C, 30);
+    g_d_by_key = false;
+    vh::count(vh::fmt("diff_histories_%d_objects", k));
+    vh::count_max("max_history_versions", g_dobjs.size());
+    const DList MANUAL{1, {DK_FULL}};
+    using osmium::OSMObject;
+    // manual iteration, three dereference styles, const and non-const iterators, typed iterator
+    for (int style = 0; style < 3; ++style) {
+        g_dlog.clear(); run_manual(style, buffer.begin<OSMObject>(), buffer.end<OSMObject>());
+        check_diff_run("DiffIterator<Buffer::t_iterator<OSMObject>>", MANUAL, -1, vh::fmt("style=%d", style));
+        g_dlog.clear(); run_manual(style, buffer.cbegin<OSMObject>(), buffer.cend<OSMObject>());
+        check_diff_run("DiffIterator<Buffer::t_const_iterator<OSMObject>>", MANUAL, -1, vh::fmt("style=%d", style));
+    }
+    g_dlog.clear(); run_manual(0, buffer.begin<osmium::Node>(), buffer.end<osmium::Node>());
+    check_diff_run("DiffIterator<Buffer::t_iterator<Node>>", MANUAL, 0, "");
+    g_dlog.clear(); run_manual(1, buffer.cbegin<osmium::Way>(), buffer.cend<osmium::Way>());
+    check_diff_run("DiffIterator<Buffer::t_const_iterator<Way>>", MANUAL, 1, "");
+    g_dlog.clear(); run_manual(2, buffer.begin<osmium::Relation>(), buffer.end<osmium::Relation>());
+    check_diff_run("DiffIterator<Buffer::t_iterator<Relation>>", MANUAL, 2, "");
+    // apply_diff over iterator ranges with 1..4 handlers
+    for (int li = 0; li < NDLISTS; ++li) {
+        g_dlog.clear(); run_apply_diff(li, buffer.begin<OSMObject>(), buffer.end<OSMObject>());
+        check_diff_run("apply_diff(begin<OSMObject>(), end)", DLISTS[li], -1, "");
+        g_dlog.clear(); run_apply_diff(li, buffer.cbegin<OSMObject>(), buffer.cend<OSMObject>());
+        check_diff_run("apply_diff(cbegin<OSMObject>(), cend)", DLISTS[li], -1, "");
+        vh::count(vh::fmt("diff_handler_lists_len%d", DLISTS[li].len), 2);
+    }
+    // a source that delivers the history in several buffers (as a Reader does): prev/curr/next straddle buffers
+    const uint64_t rnd = rng.next();
+    for (int pat = 0; pat < NPATTERNS; ++pat) {
+        auto fill = [&](bool extras) {
+            ms.chunks.clear(); ms.next = 0;
+            if (extras) { ms.chunks.push_back({nullptr, 0}); ms.chunks.push_back({csbuf.data(), csbuf.committed()}); }
+            std::size_t start = 0;
+            for (std::size_t i = 0; i < g_dobjs.size(); ++i) {
+                if (i + 1 == g_dobjs.size() || split_after(pat == 8 ? 7 : pat, i, pat == 8 ? ~rnd : rnd)) {
+                    ms.chunks.push_back({buffer.data() + offs[start], offs[i + 1] - offs[start]});
+                    if (extras && i % 2 == 1) ms.chunks.push_back({csbuf.data(), csbuf.committed()});
+                    if (extras && i % 3 == 0) ms.chunks.push_back({nullptr, 0});
+                    start = i + 1;
+                }
+            }
+            vh::count_max("max_diff_mock_buffers", ms.chunks.size());
+            if (ms.chunks.size() > 1) vh::count("diff_mock_multi_buffer_runs");
+        };
+        const bool extras = (pat + index) % 2 == 1;
+        const std::string extra = vh::fmt("split-pattern=%d%s", pat, extras ? " +buffers without objects" : "");
+        const int li = static_cast<int>((index + pat) % NDLISTS);
+        fill(extras);
+        g_dlog.clear(); run_apply_diff_source(li, ms);
+        check_diff_run("apply_diff(source) [InputIterator<source, OSMObject>]", DLISTS[li], -1, extra);
+        fill(!extras);
+        using It = osmium::io::InputIterator<MockSource, const OSMObject>;
+        g_dlog.clear(); run_manual(pat % 3, It{ms}, It{});
+        check_diff_run("DiffIterator<InputIterator<source, const OSMObject>>", MANUAL, -1, extra);
+    }
+    vh::count("diff_histories");
+    if (index % 20011 == 7) vh::sample_str("diff history (type id x versions): " + desc);
+}
+
+// mode=diff_reader: the history as OPL text through a real Reader. Built with
+// OSMIUM_VERIF_PARSER_BUFFER_SIZE=4096 the objects (1.5 KiB tags) are spread over several buffers.
+void case_diff_reader(uint64_t case_no, vh::Rng&) {
+    const uint64_t index = permute_case(case_no, g_diff_total);
+    std::string desc;
+    const int k = decode_history(index, g_dobjs, desc);
+    vh::set_case_desc("diff through Reader, history: %s", desc.c_str());
+    const unsigned div = static_cast<unsigned>(vh::arg_int("rddiv", 1));
+    if (k >= 3 && div > 1 && vh::mix(vh::st().seed, index) % div != 0) { vh::count("diff_reader_histories_skipped_by_sampling"); return; }
+    static const std::string big = [] {   // six tags of 250 bytes each (a tag value is limited to 1024 characters)
+        std::string t;
+        for (int j = 0; j < 6; ++j) t += (j ? ",k" : "k") + std::to_string(j) + "=" + std::string(250, 'x');
+        return t;
+    }();
+    std::string opl;
+    for (std::size_t i = 0; i < g_dobjs.size(); ++i) {
+        const DObj& o = g_dobjs[i];
+        opl += vh::fmt("%c%lld v%u dV c5 t2020-01-01T00:00:00Z i1 uu T%s,n=%zu", DCH[o.type], (long long)o.id, o.version, big.c_str(), i);
+        opl += o.type == 0 ? " x1 y2\n" : o.type == 1 ? " Nn1,n2\n" : " Mn1@role\n";
+    }
+    g_d_by_key = true;
+    const osmium::io::File file{opl.data(), opl.size(), "opl"};
+    // pre-pass: how does the Reader cut the history into buffers?
+    std::vector<std::size_t> per_buffer;
+    {
+        osmium::io::Reader reader{file};
+        while (osmium::memory::Buffer b = reader.read()) {
+            std::size_t n = 0;
+            for (auto it = b.begin<osmium::OSMObject>(); it != b.end<osmium::OSMObject>(); ++it) ++n;
+            per_buffer.push_back(n);
+        }
+        reader.close();
+    }
+    std::size_t total = 0;
+    for (auto n : per_buffer) total += n;
+    if (total != g_dobjs.size()) { vh::violation("harness: Reader pre-pass did not deliver the history", vh::fmt("%zu of %zu objects", total, g_dobjs.size())); return; }
+    vh::count_max("max_diff_reader_buffers", per_buffer.size());
+    if (per_buffer.size() > 1) {
+        vh::count("diff_reader_multi_buffer_histories");
+        // windows prev/curr/next of one object that straddle a buffer boundary
+        std::vector<int> bufno;
+        for (std::size_t b = 0; b < per_buffer.size(); ++b) for (std::size_t j = 0; j < per_buffer[b]; ++j) bufno.push_back(static_cast<int>(b));
+        for (std::size_t i = 0; i + 1 < g_dobjs.size(); ++i)
+            if (same_object(g_dobjs[i], g_dobjs[i + 1]) && bufno[i] != bufno[i + 1]) vh::count("diff_reader_same_object_neighbours_in_different_buffers");
+    }
+    const std::string extra = vh::fmt("reader buffers=%zu", per_buffer.size());
+    const int li = static_cast<int>(index % NDLISTS);
+    {
+        osmium::io::Reader reader{file};
+        g_dlog.clear(); run_apply_diff_source(li, reader);
+        reader.close();
+        check_diff_run("apply_diff(Reader)", DLISTS[li], -1, extra);
+    }
+    {
+        osmium::io::Reader reader{file, (index & 1U) ? osmium::io::buffers_type::single : osmium::io::buffers_type::any};
+        using It = osmium::io::InputIterator<osmium::io::Reader, osmium::OSMObject>;
+        const DList MANUAL{1, {DK_FULL}};
+        g_dlog.clear(); run_manual(static_cast<int>(index % 3), It{reader}, It{});
+        reader.close();
+        check_diff_run("DiffIterator<InputIterator<Reader, OSMObject>>", MANUAL, -1, extra);
+    }
+    vh::count("diff_reader_histories");
+    if (index % 1013 == 3) vh::sample_str("diff through Reader (" + extra + "): " + desc);
+}
+
+#endif // PART(4)
+
 // C20_PART3_MARKER
 } // namespace
 
@@ -964,6 +1495,17 @@ int main(int argc, char** argv) {
     if (mode == "apply") {
         const int maxlen = static_cast<int>(vh::arg_int("maxlen", 5));
         return vh::run_cases(argc, argv, sequences_upto(NSYM, maxlen), case_apply, at_end_apply);
+    }
+#if PART(4)
+    if (mode == "diff" || mode == "diff_reader") {
+        init_skels(static_cast<int>(vh::arg_int("kmax", 5)));
+        if (vh::arg_int("print-total", 0)) { std::printf("%llu\n", (unsigned long long)g_diff_total); return 0; }
+        return vh::run_cases(argc, argv, g_diff_total, mode == "diff" ? case_diff : case_diff_reader);
+    }
+#endif
+    if (mode == "reader") {
+        const int maxlen = static_cast<int>(vh::arg_int("maxlen", 5));
+        return vh::run_cases(argc, argv, 2 * sequences_upto(4, maxlen), case_reader, at_end_apply);
     }
     return 2;
 }
